@@ -7,7 +7,10 @@ From NS Require Export Run.
 Fixpoint bs (l : list Z) : string :=
   match l with [] => EmptyString | n :: l' => String (ascii_of_N (Z.to_N n)) (bs l') end.
 
-Inductive store_kind := SKStatic | SKExact | SKSparse | SKSuperset.
+Inductive store_kind := SKStatic | SKExact | SKSparse | SKSuperset | SKPoison.
+
+(* what the poisoning store adds to every cell nobody asked for *)
+Definition POISON : Z := 1000003.
 
 Definition answer_balances (k : store_kind) (B : balances) (q : bquery) : balances :=
   match k with
@@ -19,12 +22,18 @@ Definition answer_balances (k : store_kind) (B : balances) (q : bquery) : balanc
         flat_map (fun c => match bfind (fst e, c) B with
                            | Some v => if v =? 0 then [] else [((fst e, c), v)]
                            | None => [] end) (snd e)) q
+  | SKPoison =>
+      (* the requested cells at their value, then its whole content with every cell that was NOT
+         requested off by POISON: an answer may contain anything on top of what was asked, and
+         nothing of it may be used *)
+      flat_map (fun e : string * list string => map (fun c => ((fst e, c), bget B (fst e) c)) (snd e)) q
+      ++ flat_map (fun e : cell * Z => if requested q (fst e) then [] else [(fst e, snd e + POISON)]) B
   end.
 
 Definition answer_meta (k : store_kind) (M : metadata) (account key : string) : metadata :=
   match k with
   | SKStatic | SKSuperset => M
-  | SKExact | SKSparse =>
+  | SKExact | SKSparse | SKPoison =>
       match alookup account M with
       | Some am => match alookup key am with Some v => [(account, [(key, v)])] | None => [] end
       | None => []
